@@ -19,12 +19,14 @@ def run(ctx):
     ctx.fan(exe, "names", 1)
     ctx.fan(exe, "badtype", 4)
     ctx.fan(exe, "hugebuf", 11, chunk=1, timeout=600)    # 2 GiB .. 8 GiB lazily mapped buffers: refusals must be clean, the 2 GiB + 4 KiB snappy (and, thorough, zlib) round trip must be exact
+    # incompressible 0.5..2 GiB buffers (the compressed form is the large one): zlib at 2^30 and 560 MiB in quick, ten (algorithm, level, size) combinations in thorough
+    ctx.fan(exe, "hugerand", 10 if th else 2, chunk=1, timeout=900, max_workers=3)
     s = ctx.stats
-    ctx.assumptions += ["a failing compress call is allowed by the property and only counted", "empty buffers are passed as a valid pointer with length 0", "buffers of 2 GiB and more are only probed for lz4/lz4hc/zstd, where the answer is cheap; snappy and zlib at those sizes are outside what is explored (and outside the statement's 'megabytes')"]
+    ctx.assumptions += ["a failing compress call is allowed by the property and only counted", "empty buffers are passed as a valid pointer with length 0", "buffers of 2 GiB and more are only probed for lz4/lz4hc/zstd, where the answer is cheap; snappy and zlib: one 2 GiB + 4 KiB zero buffer each and the refusals at 4 GiB", "incompressible buffers above 4 MiB only in the hugerand cases (0.5 .. 2 GiB)"]
     return ctx.finish(
         rule="buffers: every length 0..64 x {zeros, 0xff, counter, abab, random} (exhaustive), then seeded structured/random buffers up to %s; each buffer x 5 algorithms x "
              "{default path, levels below min .. above max}; distinct_nontrivial = distinct non-empty buffers (hash of content)" % ("4 MiB" if th else "1 MiB"),
         evaluations=s.get("roundtrips", 0),
-        floors={"small.buffers": 325, "roundtrips": 5000, "names.roundtrip": 6, "names.refused": 10, "badtype.calls": 4, "huge.buffers": 11},
+        floors={"small.buffers": 325, "roundtrips": 5000, "names.roundtrip": 6, "names.refused": 10, "badtype.calls": 4, "huge.buffers": 11, "hugerand.zlib.compressed_form_ge_1GiB": 1, "hugerand.zlib.roundtrip_exact": 2},
         exhaustive=False,
         extra={"exhaustive_subspace": "lengths 0..64 x 5 contents x 5 algorithms x %d levels" % (19 if th else 6)})
